@@ -373,6 +373,21 @@ def c05(ctx):
         impl = get_impl(ctx, name)
         fails, mism, _ = run_dynamic(ctx, impl, corpus_hists("C05") + hists, oracle, keep)
         report(ctx, impl, fails, mism, oracle, keep, "streaming invariance (chunked vs one-shot)")
+    # the same law for the real portable code on a big-endian target
+    from . import miri
+    rng = Rng(ctx.seed).fork("C05be")
+    be = []
+    for hid, n in enumerate([0, 1, 5, 31, 32, 33, 40, 63, 64, 65, 70, 96, 97, 128, 129, 160, 200]):
+        for k in range(2):
+            d = rng.bytes(n, 1)
+            key = G.rand_key(rng)
+            w = G.WIDTHS[(hid + k) % 3]
+            b = "PD"[k]
+            parts = G.partition(rng, d, 1 + rng.below(5))
+            lines = ["new 0 %s %s" % (b, G.keystr(key)), "new 1 %s %s" % (b, G.keystr(key))] + ["append 0 %s" % hexs(c) for c in parts] + \
+                    ["fin%s 0" % w, "hash%s 1 %s" % (w, hexs(d))]
+            be.append(History(2 * hid + k, lines, {"len": n}))
+    miri.other_targets(ctx, be, oracle, keep, "streaming invariance")
     proof_verdict(ctx, ok)
 
 
@@ -596,6 +611,23 @@ def c06(ctx):
 
     keep = DIGEST + ("PANIC", "FAULT", "W", "NONE")
     multi_dynamic(ctx, ("dev", "release"), make, oracle, keep, "checkpoint/restore transparency", "C06")
+    # the same law for the real portable code on a big-endian target (checkpoints written there must resume there, and are the
+    # bytes a little-endian machine writes)
+    from . import miri
+    rng = seed_rng.fork("be")
+    be = []
+    for hid, (n, cut) in enumerate([(0, 0), (1, 1), (5, 0), (31, 31), (32, 32), (33, 1), (40, 17), (64, 33), (70, 64), (97, 50)] +
+                                   [(70, c) for c in range(0, 71, 3)]):
+        key = G.rand_key(rng)
+        d = rng.bytes(n, 1)
+        w = G.WIDTHS[hid % 3]
+        a, b = (("P", "D"), ("D", "P"), ("P", "P"))[hid % 3]
+        last = 1 + (hid // 3) % 2          # one hop or two (two byte-order slips in a writer/reader pair cancel over two hops)
+        lines = ["new 0 %s %s" % (a, G.keystr(key)), "append 0 %s" % hexs(d[:cut]), "ckpt 0", "restorefrom 1 %s 0" % b] + \
+                (["restorefrom 2 %s 1" % a] if last == 2 else []) + \
+                ["append %d %s" % (last, hexs(d[cut:])), "ckpt %d" % last, "fin%s %d" % (w, last), "new 9 P %s" % G.keystr(key), "hash%s 9 %s" % (w, hexs(d))]
+        be.append(History(hid, lines, {"cut": cut, "len": n}))
+    miri.other_targets(ctx, be, oracle, keep + ("CK",), "checkpoint/restore transparency")
     proof_verdict(ctx, ok)
 
 
@@ -935,6 +967,24 @@ def c11(ctx):
 
     keep = DIGEST + ("PANIC", "FAULT", "CK", "FIN", "NONE")
     multi_dynamic(ctx, ("dev", "release"), make, oracle, keep, "restore from arbitrary bytes", "C11")
+    # "whichever backend restores them" includes the portable code on a big-endian machine: same 164 bytes, same results as the host
+    from . import miri
+    rng = seed_rng.fork("be")
+    be = []
+    for hid in range(40):
+        blob, cnt = G.rand_blob(rng)
+        if hid % 4 == 0:
+            blob = b"".join(rng.choice(G.EDGE_LANES).to_bytes(8, "little") for _ in range(16)) + blob[128:]
+        d = G.rand_data(rng, rng.choice([0, 1, 7, 31, 32, 33, 64, 70]))
+        w = G.WIDTHS[hid % 3]
+        lines = []
+        for i, b in enumerate(("P", "D")):
+            r = 10 * i
+            lines += ["restore %d %s %s" % (r, b, blob.hex()), "ckpt %d" % r, "append %d -" % r, "ckpt %d" % r, "clone %d %d" % (r + 1, r),
+                      "append %d %s" % (r, hexs(d)), "fin%s %d" % (w, r), "finish %d" % (r + 1)]
+        be.append(History(hid, lines, {"count": cnt}))
+    miri.other_targets(ctx, be, lambda h, il: "restoring / using an arbitrary checkpoint panicked" if has_panic(il) else None, keep,
+                       "restore from arbitrary bytes")
     proof_verdict(ctx, ok)
 
 
@@ -1244,6 +1294,21 @@ def c14(ctx):
 
     keep = ("PANIC", "FAULT", "CK", "NONE")
     multi_dynamic(ctx, ("dev", "release"), make, oracle, keep, "canonical checkpoint bytes", "C14")
+    # canonical also means: the same bytes on every target.  The real portable code on a big-endian machine (Miri) must write
+    # exactly the checkpoint the x86_64 host writes for the same key and stream
+    from . import miri
+    rng = seed_rng.fork("be")
+    be = []
+    for hid, n in enumerate(list(range(0, 36)) + [63, 64, 65, 96, 97, 130]):
+        key = G.rand_key(rng)
+        d = rng.bytes(n, 1 if hid % 2 else 0)
+        lines = []
+        for r, (b, ch) in enumerate((("P", G.partition(rng, d, 2 + rng.below(3))), ("D", [d[:max(0, n - 9)], d[max(0, n - 9):]]))):
+            lines.append("new %d %s %s" % (r, b, G.keystr(key)))
+            lines += ["append %d %s" % (r, hexs(c)) for c in ch]
+            lines += ["ckpt %d" % r, "restorefrom %d %s %d" % (r + 50, b, r), "ckpt %d" % (r + 50)]
+        be.append(History(hid, lines, {"len": n, "nontrivial": n > 0}))
+    miri.other_targets(ctx, be, oracle, keep, "canonical checkpoint bytes")
     proof_verdict(ctx, ok)
 
 
